@@ -121,7 +121,32 @@ pub fn hostile_line(rng: &mut Rng, acs: &mut [gen::Ac]) -> (Vec<u8>, String) {
         0..=5 => {
             let k = *rng.pick(gen::ALL_KINDS);
             let f = gen::frame(rng, &mut acs[i], k, false);
-            (gen::line_of(rng, &f, true), format!("{:?}", k).to_lowercase())
+            let mut line = gen::line_of(rng, &f, true);
+            if rng.chance(0.2) {
+                // a frame wrapped in a long run of non-hex noise (multi-byte and undecodable bytes included):
+                // still that frame, but the line is long and not valid UTF-8
+                let noise = |rng: &mut Rng| -> Vec<u8> {
+                    let n = rng.range(1, 120);
+                    let mut v = vec![];
+                    for _ in 0..n {
+                        match rng.below(6) {
+                            0 => v.extend("\u{2708}".as_bytes()),
+                            1 => v.push(rng.range(0x80, 0xFF) as u8),
+                            2 => v.extend("\u{fc}".as_bytes()),
+                            3 => v.push(*rng.pick(&[b' ', b'-', b'_', b'|', b'~', b'#'])),
+                            _ => v.push(*rng.pick(b"ghijklmnopqrstuvwxyzGHIJKLMNOPQRSTUVWXYZ")),
+                        }
+                    }
+                    v
+                };
+                let mut w = noise(rng);
+                w.extend_from_slice(&line[..line.len() - 1]);
+                w.extend(noise(rng));
+                w.retain(|&c| c != b'\n');
+                w.push(b'\n');
+                line = w;
+            }
+            (line, format!("{:?}", k).to_lowercase())
         }
         6..=10 => {
             let f = edge_frame(rng, acs[i].icao);
